@@ -15,7 +15,7 @@ def pk(o):
 
 
 def run(run, args):
-    n = 60 if run.tier == "quick" else 600
+    n = (60 if run.tier == "quick" else 600) * run.scale
     brainlib.prepare(run)
     rc, out, _ = make(["model/ChargeCheck.vo", "model/ConvCheck.vo", "model/PoissonCheck.vo"])
     if rc != 0:
